@@ -117,7 +117,7 @@ def run(tier, seed):
             for ins_ in ([1, 30, 105, 1], [1, 2 ** 130 + 1, -(2 ** 129), 1]):
                 cases.append(dict(cfg=dict(p=p, n=8, res=2, ign=1 if abs(ins_[1]) > 1000 else 0), prog=extra, ins=ins_))
         import matrixcases
-        cases += matrixcases.midprove_cases(p)[:4]
+        cases += matrixcases.midprove_cases(p)[:4] + matrixcases.cancellation_cases(p)
         for i, c in enumerate(cases): c.update(id=i, prove=(2 if (i % 2 or "prove_at" in c) else 1), full=1)
         try:
             recs = progs.run_impl_cases(cases, full=True, real_backend=name)
